@@ -66,7 +66,7 @@ FLOORS = {
 SHARDS_THOROUGH = 16
 
 #: trigger tags (vf.dslx.shapes.triggers) of the known parser defects: excluded by construction from ``clean``
-PARSE_TRIGGERS = ('bool-leaf-pred', 'cross-join')  # the not/abs/factors-asym/mixed-table-ref defects are repaired
+PARSE_TRIGGERS = ('cross-join',)  # the not/abs/factors-asym/mixed-table-ref defects are repaired
 PROFILE = dict(S.PROFILES['semantic'], bool_col_pred=True)
 _EXCLUDED = {}
 
